@@ -243,9 +243,47 @@ def configs(ctx):
     return out
 
 
+def fills_monitor(ctx, tr, ix):
+    """the fees of the fills of real runs (futures): what is charged as closed-today is part of what was filled, a close-today order's
+    fills are closed-today entirely, and every fill's commission is the contract's schedule applied to (price, filled lots, closed-today lots)"""
+    import monitors
+    rp = monitors.replay_of(tr)
+    fmult = tr.cfg["cost"].get("futures_commission_multiplier", 1)
+    for kind, e in tr.events:
+        if kind != "TRADE" or e["trade"]["book"] not in ix.fut or e["order"] is None:      # (delivery at expiry is a system trade without a fee)
+            continue
+        t = e["trade"]
+        f = ix.fut[t["book"]]
+        info, q, ct, p = f["info"], t["qty"], t["close_today"], t["price"]
+        ctx.evaluations += 1
+        ctx.stats["futures_fills_checked"] += 1
+        ctx.nontrivial("fill", t["effect"], ct > 0, ct == q, info["commission_type"])
+        if ct < 0 or ct > q:
+            ctx.witness("C11.4", {"kind": "close_today_amount_exceeds_fill", "effect": t["effect"]}, "%s %s %s lots at %r on %s: %s lots are charged as closed today"
+                        % (t["book"], t["effect"], q, p, e["cal"], ct), rp)
+            continue
+        if t["effect"] == "CLOSE_TODAY" and ct != q:
+            ctx.witness("C11.4", {"kind": "close_today_fill_not_all_today", "effect": t["effect"]}, "%s CLOSE_TODAY fill of %s lots at %s: %s lots charged as closed today" % (t["book"], q, e["cal"], ct), rp)
+        if t["effect"] == "OPEN":
+            want = (p * q * f["mult"] * info["open_commission_ratio"]) if info["commission_type"] == "by_money" else q * info["open_commission_ratio"]
+        else:
+            if info["commission_type"] == "by_money":
+                want = p * (q - ct) * f["mult"] * info["close_commission_ratio"] + p * ct * f["mult"] * info["close_commission_today_ratio"]
+            else:
+                want = (q - ct) * info["close_commission_ratio"] + ct * info["close_commission_today_ratio"]
+        want *= fmult
+        if not close(t["commission"], want, 1e-9):
+            ctx.witness("C11.4", {"kind": "futures_fill_commission", "effect": t["effect"]}, "%s %s %s lots (%s closed today) at %r: commission %r, schedule %r (%s, multiplier %s)"
+                        % (t["book"], t["effect"], q, ct, p, t["commission"], want, info["commission_type"], fmult), rp)
+
+
 def run(ctx):
     cfgs = configs(ctx)
     direct_calls(ctx, ctx.n(250, 6000), cfgs)
+    # fills of real runs: futures accounts, thin bars (orders filled in several parts by the volume cap), close-today orders
+    import tstream
+    tstream.stream(ctx, ctx.n(25, 800), None, [fills_monitor], acct_types=("FUTURE",),
+                   market_opts=lambda k: {"with_future": True, "n_stocks": 0, "opts": {"p_expire": 0.3}}, cfg_opts=lambda k: {"no_signal": True, "force_volume_limit": True})
 
 
 def replay(ctx, data):
